@@ -86,7 +86,9 @@ def generate(seed, tier):
     D = rng.randint(2, min(N, 4))
     spec = _gen.rand_hypergraph_spec(rng, nmin=N, nmax=N, emin=2, emax=9, smin=2, smax=D, labels="int")
     weighted = rng.random() < 0.5
-    weights = [rng.randint(1, 4) for _ in spec["edges"]]
+    weights = [rng.randint(1, 4) if rng.random() < 0.93 else 0 for _ in spec["edges"]]  # a weight may be 0
+    if not any(weights):
+        weights[0] = 2
     assortative = rng.random() < 0.5
     supply = rng.choice(["u", "u", "w", "none", "both"])
     u = [[round(0.05 + rng.random(), 3) for _ in range(K)] for _ in range(N)]
